@@ -61,6 +61,30 @@ pub fn c13_pins() -> Vec<(&'static str, &'static str)> {
     ]
 }
 
+/// Names the code generator and the long-branch repair make up for their own local labels.
+const GENERATED_FAMILIES: &[&str] = &[
+    "dowhilecondition", "dowhileend", "dowhile", "else", "endofinline", "endof", "fixup", "fix", "forend", "forupdate", "for", "ifend", "ifhere",
+    "ifneg", "ifstart", "switchend", "switchnextcase", "switchnextstatement", "whileend", "while",
+    // control: a name of the user's own, with which the same program is accepted and assembles
+    "mylabel",
+];
+
+/// A function that makes the compiler create a label of every family (far unsigned and signed
+/// `>` / `<=` branches that the repair rewrites, loops, if / else, switch, an inline expansion)
+/// and that also defines - and jumps to - a user label spelt like one of them. Either the name is
+/// refused, or what is emitted assembles (no label defined twice in the function).
+pub fn c13_genlabel(idx: u64) -> (String, String) {
+    let fam = GENERATED_FAMILIES[(idx as usize / 3) % GENERATED_FAMILIES.len()];
+    let name = format!("{}{}", fam, idx % 3 + 1);
+    let far = "c = a + b; ".repeat(30);
+    let src = format!(
+        "unsigned char a, b, c, i; signed char sa, sb;\ninline void inl() {{ if (a) c++; }}\nvoid main() {{\n  if (a > b) {{ {far} }} else {{ c = 1; }}\n  if (sa <= sb) {{ {far} }}\n  if (a <= b) {{ {far} }}\n  if (sa > sb) {{ {far} }}\n  for (i = 0; i != 2; i++) {{ c++; }}\n  while (c < 9) c++;\n  do {{ c--; }} while (c);\n  switch (a) {{ case 1: c = 2; break; case 2: c = 3; default: c = 4; }}\n  inl(); inl();\n  if (c == 77) goto {name};\n  c = 0;\n{name}: c = 1;\n}}\n",
+        far = far,
+        name = name
+    );
+    (name, src)
+}
+
 /// What an inlined copy has to look like (independent statement of `append_code`'s contract):
 /// every local label defined in the body and every local label named by an instruction of the body
 /// carries the suffix `inline<N>` of the expansion, nothing else changes.
@@ -314,6 +338,8 @@ impl Monitor for C13 {
     }
     fn plan(&self, tier: &Tier, seed: u64) -> Vec<Chunk> {
         let mut v = split_chunks("pin", 0, c13_pins().len() as u64, c13_pins().len() as u64, 2);
+        let ng = GENERATED_FAMILIES.len() as u64 * 3;
+        v.extend(split_chunks("genlabel", 0, ng, ng, 10));
         v.extend(plan_corpus(tier, seed, "C13", 10_000, 100_000));
         let nm = if *tier == Tier::Quick { 60_000 } else { 400_000 };
         v.extend(split_chunks("mutant", seed_offset(seed, "C13m", 400_000), nm, 400_000, 400));
@@ -324,6 +350,15 @@ impl Monitor for C13 {
             let (name, src) = c13_pins()[idx as usize];
             let mut r = c13_source(kind, idx, src, &Opts::default(), &[0, 1], Some(format!("pin:{}", name)));
             r.sample = Some(json!({"kind": "pin", "name": name, "source": src, "class": r.class}));
+            return r;
+        }
+        if kind == "genlabel" {
+            let (name, src) = c13_genlabel(idx);
+            let mut r = c13_source(kind, idx, &src, &Opts::default(), &[0, 1, 2], Some(format!("genlabel:{}", name)));
+            r.set("user labels spelt like generated ones", &format!("{} -> {}", name, r.class));
+            if idx % 7 == 0 {
+                r.sample = Some(json!({"kind": kind, "name": name, "source": src, "class": r.class}));
+            }
             return r;
         }
         if kind == "mutant" {
